@@ -88,6 +88,13 @@ def run(ctx):
                     ('cf2d', dict(ny=3, nx=5, bounds=True, holes='none', invalid=False, lon_transposed=True)),
                     ('cf1d', dict(ny=3, nx=12, global_lon=True, bounds=False)), ('cf1d', dict(ny=2, nx=8, global_lon=True, bounds=True))]:
         datasets.append(gen.any_dataset(rng, fam, **kw))
+    # one- and two-cell meshes whose topology variable names no face_dimension (optional for the usual layout): fewer faces than
+    # nodes per face
+    for w_, h_ in ((1, 1), (2, 1)):
+        dsm = gen.ugrid(rng, w=w_, h=h_, transposed=False, invalid=False, variety=False)
+        dsm.ds['Mesh2'].attrs.pop('face_dimension', None)
+        dsm.spec['label'] += ' no-face_dimension-attribute'
+        datasets.append(dsm)
     while len(datasets) < n_ds:
         datasets.append(gen.any_dataset(rng))
     # a mesh with a placeholder node (a row on the node dimension without coordinates, used by no face): it is a location of
